@@ -446,6 +446,57 @@ def run_s6(case):
     return r
 
 
+def gen_s7(tier):
+    def g():
+        for k in (2, 3):
+            for pixels in ("same-pixels", "different-pixels"):
+                for stats in (True, False):
+                    for vary in ("nothing", "level", "nodata", "shape"):
+                        for layout in ("YX", ("SYX", 2)):
+                            if tier == "quick" and k == 3 and layout != "YX":
+                                continue
+                            yield ("s7", k, pixels, stats, vary, layout)
+
+    return g
+
+
+def run_s7(case):
+    """Several saves to DIFFERENT destinations computed together in one dask.compute call (one merged graph): every
+    destination must exist afterwards and decode to its own source, and every future must return its own path."""
+    _, k, pixels, stats, vary, layout = case
+    lk = layout if layout == "YX" else layout[0]
+    r = R(outcome=f"s7:k{k}:{pixels}:stats{int(bool(stats))}:{vary}:{lk}")
+    td = tempfile.mkdtemp(prefix="vf-c05j-")
+    try:
+        futs, want = [], []
+        for n in range(k):
+            yx = (33, 20) if not (vary == "shape" and n == 1) else (20, 33)
+            nd = -9999 - (n if vary == "nodata" else 0)
+            xx, data, gbox = build_xx(yx, layout, "int16", nd, (16, 16))
+            if pixels == "different-pixels" and n:
+                data = data + 100 * n
+                xx = xx + 100 * n
+                xx.attrs["nodata"] = nd
+            path = os.path.join(td, f"out{n}.tif")
+            kw = dict(level=1 + n) if vary == "level" else {}
+            futs.append(save_cog_with_dask(xx, path, blocksize=[16], compression="deflate", stats=stats, **kw))
+            want.append((path, data, gbox, nd))
+        with dask.config.set(scheduler="sync"):
+            got = dask.compute(*futs)
+        cls = f"joint-saves:{pixels}:stats{int(bool(stats))}:vary-{vary}"
+        for n, ((path, data, gbox, nd), ret) in enumerate(zip(want, got)):
+            what = f"{case} destination #{n}"
+            if str(ret) != str(path):
+                r.fail(f"{cls}:returned-path", f"{what}: future returned {ret!r}, destination was {path!r}")
+            if not os.path.exists(path):
+                r.fail(f"{cls}:destination-missing", f"{what}: {path} was never created (returned {ret!r})")
+                continue
+            inspect(path, data, layout, gbox, nd, [16], r, what, cls)
+    finally:
+        shutil.rmtree(td, ignore_errors=True)
+    return r
+
+
 # -- E3b --------------------------------------------------------------------------------------------------------
 class _Ctx:
     pass
@@ -520,6 +571,7 @@ def slices(tier):
         e1.Slice("s3-blocksize-chunking", gen_s3(tier), run_s3, "blocksize lists x source chunkings"),
         e1.Slice("s4-spill", gen_s4(tier), run_s4, "spill size x writes per chunk x parts dir"),
         e1.Slice("s6-rewrite-destination", gen_s6(tier), run_s6, "two saves to the same destination path in sequence"),
+        e1.Slice("s7-joint-saves", gen_s7(tier), run_s7, "2-3 saves to different destinations computed in one dask.compute call"),
         e1.Slice("s5-task-orders", gen_s5(tier), run_s5, "E3b: all task orders within the deviation bound (8 partitions "
                  "of the schedule tree per graph)", shards=32),
     ]
